@@ -40,6 +40,8 @@ def cases(draw, tier="quick"):
         case["prefix_cut"] = draw(st.integers(1, 3))
     case["pre_eval"] = draw(st.sampled_from([False, False, True]))
     case["repeat"] = draw(st.sampled_from([1, 1, 1, 2]))
+    if draw(st.sampled_from([False, False, True])):
+        case["rerun"] = draw(st.lists(st.integers(0, 13), max_size=4))
     return case
 
 
@@ -115,6 +117,9 @@ def check(case):
             if escaped is not None:
                 raise Violation("evaluation raised %s: %s" % (type(escaped).__name__, escaped))
             info = compare(case, model_case, b, broker, ex, active)
+        if case.get("rerun") is not None:
+            info = dict(info)
+            info["labels"] = sorted(set(info["labels"]) | set(_rerun(case, model_case, b, broker, ex, case["rerun"])))
         return info
     finally:
         dyn.cleanup(b)
@@ -123,6 +128,62 @@ def check(case):
             if k not in saved_items:
                 del saved_enabled[k]
         saved_enabled.update(saved_items)
+
+
+def _rerun(case, model_case, b, broker, ex1, reseed):
+    """The same broker is evaluated again (an interactive session, a caller that supplies further inputs after a
+    first pass): whatever holds a value keeps it, everything else is decided afresh by the same rule - a component
+    whose requirements are met *now* is invoked with the values present *now*."""
+    from insights.core import dr
+    nodes, comps = case["nodes"], b.comps
+    n = len(nodes)
+    start = dict(ex1.val)             # what the broker holds after the first pass (established by compare())
+    added = []
+    for r in reseed:
+        i = r % n
+        if i not in start and comps[i] not in broker:
+            v = dyn.seed_value(case, i)
+            broker[comps[i]] = v
+            start[i] = v
+            added.append(i)
+    b.log[:] = []
+    b.raised.clear()
+    graph = dict((c, set(comps[j] for j in dyn.dep_set(nodes[i]))) for i, c in enumerate(comps))
+    try:
+        dr.run(graph, broker=broker)
+    except Exception as e:  # noqa
+        raise Violation("second evaluation on the same broker raised %s: %s" % (type(e).__name__, e))
+    orig = dyn.seed_value
+    dyn.seed_value = lambda c, i: start[i]
+    try:
+        ex2 = dyn.model(dict(model_case, seeded=sorted(start)), None)
+    finally:
+        dyn.seed_value = orig
+    calls = {}
+    for ev in b.log:
+        if ev[0] == "call":
+            calls.setdefault(ev[1], []).append((ev[2], ev[3]))
+    for i in range(n):
+        want = ex2.invoked.get(i)
+        got = calls.get(i)
+        if (want is None) != (got is None):
+            raise Violation("second evaluation on the same broker (values supplied in between for nodes %r): node %d (%s) "
+                            "was %sinvoked but should %shave been" % (added, i, nodes[i]["t"], "" if got else "not ",
+                                                                      "not " if got else ""),
+                            node=i, got_calls=dyn.to_json(got), want_calls=dyn.to_json(want), held_before=sorted(start))
+        if want is not None and got != want:
+            raise Violation("second evaluation on the same broker: node %d (%s) received arguments %r, the values "
+                            "present prescribe %r" % (i, nodes[i]["t"], got, want), node=i)
+    have = set(b.index[c] for c in broker.instances if c in b.index)
+    if have != set(ex2.val):
+        raise Violation("after the second evaluation on the same broker the components holding a value are %r, "
+                        "expected %r" % (sorted(have), sorted(ex2.val)), supplied_in_between=added)
+    labels = ["rerun-same-broker"]
+    if added:
+        labels.append("rerun:values-supplied-in-between")
+    if any(i not in ex1.invoked and i in ex2.invoked for i in range(n)):
+        labels.append("rerun:fires-only-now")
+    return labels
 
 
 def compare(case, model_case, b, broker, ex, active):
